@@ -112,6 +112,16 @@ impl<'a> Parser<'a> {
 
         let mut arg = vec![];
         loop {
+            // a doubled `))` is an escaped `)` inside an argument as well; it cannot be two
+            // closing parentheses, because nested arguments are always separated by a `}`
+            if let Some((_, ')')) = self.it.clone().nth(1) {
+                if let Some(&(_, ')')) = self.it.peek() {
+                    self.it.next();
+                    self.it.next();
+                    arg.push(Piece::Text(")"));
+                    continue;
+                }
+            }
             if self.consume(')') {
                 return Ok(arg);
             } else {
